@@ -280,43 +280,44 @@ Definition plain_next (m : mode) (c : N) (l : lex) : step :=
 Definition is_ext_op (c : N) : bool :=
   (c =? cBANG) || (c =? cQUEST) || (c =? cSTAR) || (c =? cPLUS) || (c =? cAT).
 
-(* regexpNext, with the nested loop of the extended operators; mutual recursion on fuel *)
+(* the nested loop of an extended operator group.  [next] = regexpNext on the rest (the recursive call),
+   c = the operator, optxt = the operator and everything after it (for the unclosed case),
+   txt = gsb so far (without the leading "("), alts/cur = AST so far *)
+Fixpoint group_loop (next : lex -> step) (c : N) (optxt : list N) (start : nat)
+         (gfuel : nat) (lx : lex) (txt : str) (alts : option ore) (cur : ore) {struct gfuel} : step :=
+  match gfuel with
+  | O => SFuel
+  | S gfuel' =>
+      if lpeek lx =? cRPAR then
+        let lend := lskip1 lx in
+        let body := match alts with None => cur | Some a => oalt a cur end in
+        let gtxt := [cLPAR] ++ txt ++ [cRPAR] in
+        if c =? cBANG then SNeg start (lpos lend) lend
+        else if c =? cAT then SOk gtxt (omap RGroup body) lend
+        else if c =? cSTAR then SOk (gtxt ++ [c]) (omap (fun b => RStar (RGroup b)) body) lend
+        else if c =? cPLUS then SOk (gtxt ++ [c]) (omap (fun b => RPlus (RGroup b)) body) lend
+        else SOk (gtxt ++ [c]) (omap (fun b => ROpt (RGroup b)) body) lend
+      else if lpeek lx =? cBAR then
+        group_loop next c optxt start gfuel' (lskip1 lx) (txt ++ [cBAR])
+                   (Some (match alts with None => cur | Some a => oalt a cur end)) (OOk REps)
+      else
+        match next lx with
+        | SEOF lend => SOk (quote_meta optxt) (OOk (lit_re optxt)) lend      (* unclosed: literal *)
+        | SErr e => SErr e
+        | SNeg a b l' => SNeg a b l'
+        | SOk t r l' => group_loop next c optxt start gfuel' l' (txt ++ t) alts (ocat cur r)
+        | SFuel => SFuel
+        end
+  end.
+
+(* regexpNext; recursion (through group_loop) on fuel *)
 Fixpoint regexp_next (fuel : nat) (m : mode) (l0 : lex) : step :=
   match fuel with
   | O => SFuel
   | S fuel' =>
       let '(c, l) := lnext l0 in
       if m_ext m && is_ext_op c && (lpeek l =? cLPAR) then
-        let start := lpos l0 in
-        let lg := lskip1 l in        (* after '(' *)
-        (* nested loop: txt = gsb so far (without the leading "("), alts/cur = AST so far *)
-        (fix group_loop (gfuel : nat) (lx : lex) (txt : str) (alts : option ore) (cur : ore) {struct gfuel} : step :=
-           match gfuel with
-           | O => SFuel
-           | S gfuel' =>
-               let unclosed lend :=
-                 let t := c :: lrest l in SOk (quote_meta t) (OOk (lit_re t)) lend in
-               if lpeek lx =? cRPAR then
-                 let lend := lskip1 lx in
-                 let body := match alts with None => cur | Some a => oalt a cur end in
-                 let gtxt := [cLPAR] ++ txt ++ [cRPAR] in
-                 if c =? cBANG then SNeg start (lpos lend) lend
-                 else if c =? cAT then SOk gtxt (omap RGroup body) lend
-                 else if c =? cSTAR then SOk (gtxt ++ [c]) (omap (fun b => RStar (RGroup b)) body) lend
-                 else if c =? cPLUS then SOk (gtxt ++ [c]) (omap (fun b => RPlus (RGroup b)) body) lend
-                 else SOk (gtxt ++ [c]) (omap (fun b => ROpt (RGroup b)) body) lend
-               else if lpeek lx =? cBAR then
-                 group_loop gfuel' (lskip1 lx) (txt ++ [cBAR])
-                            (Some (match alts with None => cur | Some a => oalt a cur end)) (OOk REps)
-               else
-                 match regexp_next fuel' m lx with
-                 | SEOF lend => unclosed lend
-                 | SErr e => SErr e
-                 | SNeg a b l' => SNeg a b l'
-                 | SOk t r l' => group_loop gfuel' l' (txt ++ t) alts (ocat cur r)
-                 | SFuel => SFuel
-                 end
-           end) fuel' lg [] None (OOk REps)
+        group_loop (regexp_next fuel' m) c (c :: lrest l) (lpos l0) fuel' (lskip1 l) [] None (OOk REps)
       else plain_next m c l
   end.
 
